@@ -73,8 +73,11 @@ def place_fn(rot: int = 0, shift=(0.0, 0.0), scale: float = 1.0):
     return pt
 
 
-def build_schematic(prog: list[dict], netlist: list[dict], naming: Naming, rot=0, shift=(0.0, 0.0), scale=1.0, split=False, order=None, gnd_name='0', int_labels=0):
-    """returns (schematic, names: item id -> element name, label_names: item id -> text)"""
+def build_schematic(prog: list[dict], netlist: list[dict], naming: Naming, rot=0, shift=(0.0, 0.0), scale=1.0, split=False, order=None, gnd_name='0', int_labels=0,
+                    probe=None, probe_after=()):
+    """returns (schematic, names: item id -> element name, label_names: item id -> text).
+    probe(d) is called on the drawing under construction after the placements whose position is in probe_after (a user who translates or
+    solves while drawing)"""
     comp_of = {c['id']: c for c in netlist}
     pt = place_fn(rot, shift, scale)
     d = elm.Schematic(unit=PITCH * scale)
@@ -82,7 +85,9 @@ def build_schematic(prog: list[dict], netlist: list[dict], naming: Naming, rot=0
     idxs = list(range(len(prog))) if order is None else list(order)
     nlabel = 0
     placed = []
-    for i in idxs:
+    for pos, i in enumerate(idxs):
+        if probe is not None and pos in probe_after:
+            probe(d)
         it = prog[i]
         iid = i + 1
         k = it['k']
